@@ -107,7 +107,10 @@ func ElemValues(f *Field) []*Val {
 			u(x)
 		}
 	case KFloat:
-		for _, x := range []float64{0, 1.5, -1, 1e21, 1e-7, math.MaxFloat32, -math.MaxFloat32, math.SmallestNonzeroFloat32, float64(float32(0.1)), 16777217} {
+		for _, x := range []float64{0, 1.5, -1, 1e21, 1e-7, math.MaxFloat32, -math.MaxFloat32, math.SmallestNonzeroFloat32, float64(float32(0.1)), 16777217,
+			// the two float32 values (of all 2^32, enumerated once) whose shortest decimal form, read as a
+			// float64 and narrowed, is the neighbouring float32 (double rounding)
+			float64(math.Float32frombits(363742205)), float64(math.Float32frombits(2511225853))} {
 			fl(float64(float32(x)))
 		}
 	case KDouble:
